@@ -1430,6 +1430,8 @@ func runC01(r *Report) {
 	c.r6("R6")
 	c.r7("R7")
 	c.r8("R8")
+	// the block handed to AddData is not recycled before it has been copied (shared with C16.R6)
+	bufferUseAfterGiveBack(r, "R8")
 	c.r9("R9")
 	// the FUSE consumer: a Reader is stateful (Seek then Read), the kernel sends reads for one handle in parallel, and
 	// the handle's semaphore is the only thing that keeps the reply for offset X carrying the bytes of offset X
